@@ -286,7 +286,8 @@ struct Driver {
   // replay runs the case this many times in one process and fails if any repetition fails.  For an
   // operation that is required to keep no state between calls this is the reproducible unit: a
   // stateless implementation answers every repetition alike, so repeating can never create an alarm.
-  unsigned replay_repeat = 1;
+  // (bounded by 15 s of wall time, which can only make a history-dependent failure not reproduce.)
+  unsigned replay_repeat = 3000;
 };
 
 static inline int driver_main(int argc, char** argv, const Driver& drv) {
@@ -316,7 +317,10 @@ static inline int driver_main(int argc, char** argv, const Driver& drv) {
     Case c;
     if (!read_case_file(replay, c)) { fprintf(stderr, "cannot read %s\n", replay.c_str()); return 2; }
     Result r = drv.run_case(ctx.prop, c);
-    for (unsigned k = 1; k < drv.replay_repeat && r.ok && !r.skipped; k++) {
+    auto t_rep = std::chrono::steady_clock::now();
+    unsigned reps = drv.replay_repeat;
+    if (const char* e = getenv("VERIF_REPLAY_REPEAT")) reps = (unsigned)strtoul(e, nullptr, 10);
+    for (unsigned k = 1; k < reps && r.ok && !r.skipped && std::chrono::steady_clock::now() - t_rep < std::chrono::seconds(15); k++) {
       r = drv.run_case(ctx.prop, c);
       if (!r.ok) r.msg = "(repetition " + std::to_string(k + 1) + " of the same case in one process; the first " + std::to_string(k) + " passed) " + r.msg;
     }
